@@ -282,7 +282,10 @@ func (w *World) assignIDs() {
 		}
 		return a.goid < b.goid
 	})
-	for _, t := range w.newTasks {
+	for i, t := range w.newTasks {
+		if i > 0 && w.newTasks[i-1].Name == t.Name {
+			w.probes["sched.same-name-tasks-in-one-window"]++ // order falls back to goroutine ids (creation order at GOMAXPROCS=1)
+		}
 		t.ID = w.nextID
 		w.nextID++
 	}
